@@ -1,5 +1,5 @@
 import Driver.Codec
-import CardVerif.Model.GinGame
+import CardModel.Model.GinGame
 open Lean CardVerif CardVerif.Codec CardVerif.Gin
 
 namespace CardVerif.Driver
